@@ -89,6 +89,11 @@ type Sched struct {
 	FreeNoise int // 0 = none, 1 = gosched, 2 = gosched+sleep
 
 	Progress *atomic.Int64
+
+	// Timed: park on plain channels and detect quiescence by wall-clock (no synctest
+	// bubble); used to re-execute a schedule on which the bubble stalled.
+	Timed  bool
+	parkCt atomic.Int64
 }
 
 func New() *Sched { return &Sched{names: map[int64]string{}} }
@@ -125,6 +130,7 @@ func (s *Sched) Yield(point, label string) {
 	}
 	g := GID()
 	p := &Parked{G: g, Point: point, Label: label, ch: make(chan struct{})}
+	s.parkCt.Add(1)
 	s.mu.Lock()
 	name, ok := s.names[g]
 	if !ok {
@@ -293,6 +299,78 @@ func (s *Sched) Loop(pick Picker, maxSteps, extra int, onQuiesce func(step int),
 			onStep(step, ps[i])
 		}
 		s.release(ps[i])
+	}
+}
+
+// Activity is bumped by harnesses when a tracked goroutine starts or ends (timed mode).
+func (s *Sched) Activity() { s.parkCt.Add(1) }
+
+// quiesceTimed waits until no park/activity event has happened for the given window.
+func (s *Sched) quiesceTimed(window time.Duration) {
+	last, since := s.parkCt.Load(), time.Now()
+	for {
+		time.Sleep(time.Millisecond)
+		cur := s.parkCt.Load()
+		if cur != last {
+			last, since = cur, time.Now()
+			continue
+		}
+		if time.Since(since) >= window {
+			return
+		}
+	}
+}
+
+// LoopTimed re-executes a schedule without a bubble: after every release it waits until
+// the system has been quiet for `window`. When the script is exhausted (or its next thread
+// is not parked) all parked goroutines are released together, repeatedly, until done()
+// or until nothing is parked and nothing happens for `grace`. It returns false when the
+// execution did not finish: every goroutine is blocked although all were released.
+func (s *Sched) LoopTimed(script []string, window, grace time.Duration, done func() bool, onStep func(p *Parked)) (finished bool, diverged int) {
+	diverged = -1
+	pos := 0
+	deadline := time.Time{}
+	for step := 0; ; step++ {
+		s.quiesceTimed(window)
+		if done() {
+			return true, diverged
+		}
+		ps := s.Snapshot()
+		if len(ps) == 0 {
+			if deadline.IsZero() {
+				deadline = time.Now().Add(grace)
+			} else if time.Now().After(deadline) {
+				return false, diverged
+			}
+			continue
+		}
+		deadline = time.Time{}
+		if diverged < 0 && pos < len(script) {
+			var hit *Parked
+			for _, p := range ps {
+				if p.Thread == script[pos] {
+					hit = p
+					break
+				}
+			}
+			pos++
+			if hit != nil {
+				if onStep != nil {
+					onStep(hit)
+				}
+				s.release(hit)
+				continue
+			}
+			diverged = step
+		} else if diverged < 0 {
+			diverged = step
+		}
+		for _, p := range ps {
+			if onStep != nil {
+				onStep(p)
+			}
+			s.release(p)
+		}
 	}
 }
 
